@@ -49,13 +49,13 @@ PINNED = {
     "cst_parser.rs:parse_expr": "39856c2b9ec968d5",
     "cst_parser.rs:parse_expr_with_precedence": "08ca49edb97f47dc",
     "cst_parser.rs:parse_expr_with_precedence_no_linebreak": "f0baf9a21f2ba9a4",
-    "cst_parser.rs:parse_function_decl": "4cd2baa681d5cc45",
+    "cst_parser.rs:parse_function_decl": "25cfa5a6d99fe60f",
     "cst_parser.rs:parse_if_expr": "18cfd579243b4095",
     "cst_parser.rs:parse_include_stmt": "54c38c6a4eb4cada",
-    "cst_parser.rs:parse_lambda_expr": "4ebb251b1d62dcba",
+    "cst_parser.rs:parse_lambda_expr": "23fe1becc5963c05",
     "cst_parser.rs:parse_let_decl": "7ec3ab0e6b91b985",
     "cst_parser.rs:parse_letrec_decl": "814a1ef9e019079c",
-    "cst_parser.rs:parse_macro_decl": "b4b873e751eefb07",
+    "cst_parser.rs:parse_macro_decl": "4a25458117fb4ab5",
     "cst_parser.rs:parse_macro_expansion": "729af8d19789efa3",
     "cst_parser.rs:parse_match_arm": "24baeeba2a441c27",
     "cst_parser.rs:parse_match_expr": "98e1fa39f8a2356f",
